@@ -678,7 +678,7 @@ def _hostile_state(fam, hist, res, X):
 def units(tier):
     nk3 = 3 * len(FORMS)
     return (
-        [("dictlike", "p"), ("closure", "ps"), ("falsy", "p"), ("chains", "p"), ("chains", "n"), ("order", "p"), ("order", "n"), ("order", "g"), ("closure", "pn"), ("closure", "pg"), ("depth", "png", "root")]
+        [("local-classes", "-"), ("dictlike", "p"), ("closure", "ps"), ("falsy", "p"), ("chains", "p"), ("chains", "n"), ("order", "p"), ("order", "n"), ("order", "g"), ("closure", "pn"), ("closure", "pg"), ("depth", "png", "root")]
         + [("depth", "png", i) for i in range(nk3)]
     )
 
@@ -697,6 +697,7 @@ def meta(tier):
             "closure": "2 bases x 6 forms, pairings (p,n), (p,g) and (p,s) - s = list[B0], a key that is not a class, next to its own element class: fixpoint each (all histories of any length)",
             "order": "1 base x 9 forms (6 + forward references naming the NewType/alias/string alias), for each of p, n, g: fixpoint",
             "dictlike": "1 base (p) x 6 forms: fixpoint; key with raising hash probed in every state",
+            "local-classes": "classes defined one and two function levels deep and a class nested in one, each as itself / NewType / Final (9 keys): every insertion order of every subset of <= 3 keys, every key looked up twice in the final state of each",
             "falsy": "1 base (p) x 6 forms, the stored values are None, 0, '', (), frozenset(), b'' (one per key): fixpoint",
             "chains": "1 base (p, n) x 10 forms: the base, its forward reference, ClassVar[B] and wrappers of wrappers (NewType of Final / alias / string alias / NewType; Final of NewType; alias of NewType / Final): fixpoint",
             "depth": f"3 bases (p,n,g) x 6 forms: every history up to length {DEPTH3[tier]} (last operation probed, not expanded)",
@@ -716,7 +717,86 @@ def meta(tier):
     }
 
 
+_LOCAL_SRC = """
+import typing
+def _mk1():
+    class L1: pass
+    return L1
+def _mk2():
+    def _inner():
+        class L2:
+            class In: pass
+        return L2
+    return _inner()
+L1 = _mk1()
+L2 = _mk2()
+L2In = L2.In
+KEYS = {}
+for _n, _c in (("L1", L1), ("L2", L2), ("L2In", L2In)):
+    KEYS[_n] = _c
+    KEYS["NewType(" + _n + ")"] = typing.NewType("N" + _n, _c)
+    KEYS["Final[" + _n + "]"] = typing.Final[_c]
+UNWRAPPED = {k: (k.split("(")[-1].split("[")[-1].rstrip(")]")) for k in KEYS}
+"""
+
+
+def run_local_classes(res):
+    """classes defined inside functions (one and two levels deep, and a class nested in such a class): no reference can name them, so a
+    TypeContext is a write-once dict with the unwrapped-form fallback only. Every insertion order of every subset of <= 3 of the 9 keys,
+    every lookup of every key after every insertion."""
+    import itertools
+
+    m = mkmod("tlg_c16_locals", _LOCAL_SRC)
+    keys, unwrapped = m.KEYS, m.UNWRAPPED
+    names = list(keys)
+    for n in range(0, 4):
+        for order in itertools.permutations(names, n):
+            # (inserting a wrapper whose unwrapped form is stored is still a fresh key)
+            cold.clear_all()
+            c = tlctx.TypeContext()
+            model = {}
+            res.programs += 1
+            ok_hist = True
+            for step in range(n + 1):
+                if step:
+                    k = order[step - 1]
+                    o = call(operator.setitem, c, keys[k], f"v:{k}")
+                    model[k] = f"v:{k}"
+                    if not o.ok:
+                        res.violation(f"C16/local-class/insert/raises:{o.excname}", f"ctx[{k}] = ... raises {o.exc!r} after inserting {list(order[:step - 1])}", {"kind": "local-classes"})
+                        ok_hist = False
+                        break
+                if step < n:
+                    continue  # judge the final state of every history (its prefixes are histories of their own)
+                for _round in (0, 1):  # twice: a lookup never changes a later lookup
+                    for k in names:
+                        want = model.get(k, model.get(unwrapped[k], KEYERROR))
+                        g = call(operator.getitem, c, keys[k])
+                        d = call(c.get, keys[k], DEFAULT)
+                        res.evals += 2
+                        got_g = g.val if g.ok else (KEYERROR if isinstance(g.exc, KeyError) else f"raises:{g.excname}")
+                        got_d = d.val if d.ok else f"raises:{d.excname}"
+                        path = "stored" if k in model else "unwrapped" if unwrapped[k] in model else "absent"
+                        res.outcomes.add(h64("local", k, path, str(got_g), _round))
+                        if path == "unwrapped":
+                            res.nontrivial.add(h64("local", k, tuple(sorted(model))))
+                        want_d = DEFAULT if want is KEYERROR else want
+                        if got_g != want or got_d is not want_d and got_d != want_d:
+                            what = "getitem" if got_g != want else "get"
+                            res.violation(f"C16/local-class/{what}/{path}/{'second-round' if _round else 'first-round'}/{got_g if what == 'getitem' and isinstance(got_g, str) and got_g.startswith('raises') else 'differs'}",
+                                          f"after inserting {list(order)}: ctx[{k}] -> {got_g!r}, ctx.get({k}, <default>) -> {got_d!r}; reference model: {want!r}", {"kind": "local-classes"})
+                            ok_hist = False
+                            break
+                    if not ok_hist:
+                        break
+            if not ok_hist:
+                return
+
+
 def run_unit(unit, tier, res):
+    if unit[0] == "local-classes":
+        run_local_classes(res)
+        return
     kind, kinds = unit[0], unit[1]
     X = {"cov": {}, "outs": set()}
     tagu = kind + ":" + kinds
@@ -758,6 +838,9 @@ def run_unit(unit, tier, res):
 
 
 def replay(case, tier, res):
+    if case.get("kind") == "local-classes":
+        run_local_classes(res)
+        return
     fam = family(case["kinds"], case.get("extended") or False)
     hist = tuple((o, fam.label2ki[lb]) for o, lb in case["history"])
     probe = _parse_probe(fam, case["probe"])
